@@ -14,6 +14,9 @@ pub enum JV {
     List(Vec<JV>),
     /// insertion-ordered, unique keys (later insert of an existing key replaces the value in place)
     Rec(Vec<(String, JV)>),
+    /// a value the model does not compute (a function, a built-in, a broadcast result): when it is
+    /// an output the key must be present, the value is not compared
+    Opaque,
 }
 
 impl JV {
@@ -55,6 +58,7 @@ impl JV {
             (JV::Str(a), JV::Str(b)) => a == b,
             (JV::List(a), JV::List(b)) => a.len() == b.len() && a.iter().zip(b).all(|(x, y)| x.same(y)),
             (JV::Rec(a), JV::Rec(b)) => a.len() == b.len() && a.iter().all(|(k, v)| b.iter().any(|(k2, v2)| k == k2 && v.same(v2))),
+            (JV::Opaque, _) | (_, JV::Opaque) => true,
             _ => false,
         }
     }
@@ -62,6 +66,7 @@ impl JV {
     pub fn to_json(&self) -> String {
         match self {
             JV::Null => "null".into(),
+            JV::Opaque => "\"<opaque>\"".into(),
             JV::Bool(b) => b.to_string(),
             JV::Num(n) => {
                 if n.fract() == 0.0 && n.abs() < 1e15 { format!("{}", *n as i64) } else { format!("{:?}", n) }
@@ -95,6 +100,8 @@ pub enum CE {
     List(Vec<CE>),
     Rec(Vec<(String, CE)>),
     Name(String),
+    /// source text of an expression known to succeed whose value the model does not compute
+    Opaque(String),
 }
 
 #[derive(Clone, Debug, PartialEq, Serialize, Deserialize)]
@@ -114,6 +121,7 @@ pub enum CStmt {
 fn lit_src(v: &JV) -> String {
     match v {
         JV::Null => "null".into(),
+        JV::Opaque => "null".into(),
         JV::Bool(b) => b.to_string(),
         JV::Num(n) => {
             if *n < 0.0 {
@@ -151,6 +159,7 @@ pub fn ce_src(e: &CE) -> String {
         CE::List(xs) => format!("[{}]", xs.iter().map(ce_src).collect::<Vec<_>>().join(", ")),
         CE::Rec(f) => format!("{{{}}}", f.iter().map(|(k, v)| format!("{}: {}", key_src(k), ce_src(v))).collect::<Vec<_>>().join(", ")),
         CE::Name(n) => n.clone(),
+        CE::Opaque(src) => src.clone(),
     }
 }
 
@@ -268,6 +277,7 @@ pub fn eval_ce(e: &CE, env: &[(String, JV)], inputs: &[(String, JV)]) -> Option<
             JV::Rec(out)
         }
         CE::Name(n) => env.iter().find(|(k, _)| k == n).map(|(_, v)| v.clone())?,
+        CE::Opaque(_) => JV::Opaque,
     })
 }
 
@@ -312,11 +322,10 @@ pub fn run_model(stmts: &[CStmt], inputs: &InputsResult) -> Expect {
                 }
             }
             CStmt::OutVisible(n) => {
-                if !visible.contains(n) && !outputs.iter().any(|(k, _)| k == n) {
+                if !visible.contains(n) {
                     visible.push(n.clone());
-                    // position in declaration order is remembered through a marker entry
-                    outputs.push((n.clone(), JV::Str("\u{0}visible".into())));
                 }
+                JV::rec_insert(&mut outputs, n, JV::Opaque);
             }
         }
     }
